@@ -297,6 +297,17 @@ def run_fs(desc):
     for ti, spec in enumerate(FS_TREES):
         with FC.built_tree(spec) as (root, _removed):      # deep sandbox: `..` segments of generated patterns stay inside it
             broot = os.fsencode(root)
+            cands = []
+            for b_, ds_, fs_ in os.walk(root, followlinks=False):
+                for n_ in ds_ + fs_:
+                    rel_ = os.path.relpath(os.path.join(b_, n_), root)
+                    cands.append(rel_)
+                    if os.path.isdir(os.path.join(b_, n_)):
+                        cands.append(rel_ + '/')
+                        if os.path.islink(os.path.join(b_, n_)):
+                            for n2_ in sorted(os.listdir(os.path.join(b_, n_)))[:3]:
+                                cands.append(rel_ + '/' + n2_)
+            cands.sort()
 
             @seed(desc['seed'] + ti)
             @util.hyp_settings(desc['n'], shrink=False)
@@ -338,6 +349,16 @@ def run_fs(desc):
                             if a2 != a:
                                 out.violation(dict(case, problem='iglob differs from glob'), bucket=('iglob',))
                                 return
+                            # the matcher that looks at the file system: every entry, with and without a trailing separator
+                            ma = G.globfilter(cands, texts, flags=fl | G.REALPATH, root_dir=root)
+                            mb = G.globfilter([os.fsencode(c) for c in cands], enc(texts), flags=fl | G.REALPATH, root_dir=broot)
+                            out.evaluations += 1
+                            if [os.fsencode(x) for x in ma] != mb:
+                                d = sorted(set(os.fsencode(x) for x in ma) ^ set(mb))[0].decode()
+                                out.violation(dict(case, api='globfilter(REALPATH)', name=d,
+                                                   problem='bytes result differs from str result: globfilter with REALPATH'),
+                                              size=len(str(texts)) * 10, bucket=('fs', 'globfilter'))
+                                return
                 except util.HarnessBudget:
                     out.stats['watchdog_skipped'] += 1
                     return
@@ -376,7 +397,11 @@ def replay(case):
     if m == 'fs':
         with FC.built_tree(FS_TREES[case['tree']]) as (root, _removed):
             broot = os.fsencode(root)
-            if case['api'] == 'WcMatch':
+            if case['api'].startswith('globfilter'):
+                names = [case['name'], case['name'].rstrip('/'), case['name'].rstrip('/') + '/']
+                a = G.globfilter(names, case['pattern'], flags=case['flags'] | G.REALPATH, root_dir=root)
+                b = G.globfilter([os.fsencode(n) for n in names], enc(case['pattern']), flags=case['flags'] | G.REALPATH, root_dir=broot)
+            elif case['api'] == 'WcMatch':
                 a = WM.WcMatch(root, case['pattern'], 'e', flags=case['flags']).match()
                 b = WM.WcMatch(broot, enc(case['pattern']), b'e', flags=case['flags']).match()
             else:
